@@ -309,6 +309,89 @@ def py_tables(idx: Index) -> Tuple[ast.Dict, ast.Dict, Dict[str, ast.FunctionDef
     return tables["operators"], tables["builtins"], funcs
 
 
+def falsy_default_rule(idx: Index, res: Result, rule: str = "FALSY") -> int:
+    """FALSY: in the generator functions of py.py a *parsed argument* may be the number 0 (parseExpression hands numeric leaves back
+    as floats).  Deciding "was the optional argument given?" by the argument's truth value - `first = first or <default>`,
+    `x if x else <default>`, `if not x: x = <default>` - replaces a literal 0 by the default: PULSE(v, 0, 5) starts at the start time,
+    SAFEDIV(a, b, 0) ... The pinned code tests `== None`."""
+    m = idx.module(PY)
+    n = 0
+    for q, fi in m.functions.items():
+        if fi.cls or "." in q or q == "parseExpression":
+            continue
+        parsed: Set[str] = set()
+        for _ in range(3):
+            for a in walk_no_nested(fi.node):
+                if isinstance(a, ast.Assign) and (any(isinstance(c, ast.Call) and call_name(c) == "parseExpression" for c in ast.walk(a.value))
+                                                  or any(isinstance(x, ast.Name) and x.id in parsed for x in ast.walk(a.value))):
+                    for t in a.targets:
+                        for x in ast.walk(t):
+                            if isinstance(x, ast.Name) and isinstance(x.ctx, ast.Store):
+                                parsed.add(x.id)
+        if not parsed:
+            continue
+        n += 1
+        for b in walk_no_nested(fi.node):
+            hit = None
+            if isinstance(b, ast.BoolOp) and isinstance(b.op, ast.Or) and isinstance(b.values[0], ast.Name) and b.values[0].id in parsed \
+                    and not isinstance(getattr(b, "_parent_test", None), ast.AST):
+                hit = b.values[0].id
+            if isinstance(b, ast.IfExp) and isinstance(b.test, ast.Name) and b.test.id in parsed and isinstance(b.body, ast.Name) and b.body.id == b.test.id:
+                hit = b.test.id
+            if isinstance(b, ast.If) and isinstance(b.test, ast.UnaryOp) and isinstance(b.test.op, ast.Not) and isinstance(b.test.operand, ast.Name) \
+                    and b.test.operand.id in parsed and any(isinstance(st, ast.Assign) and any(isinstance(t, ast.Name) and t.id == b.test.operand.id for t in st.targets) for st in b.body):
+                hit = b.test.operand.id
+            if hit is not None:
+                # a list used for its emptiness (`onzero[0] if onzero else 0` with `*onzero`) is not a parsed value but a list of them
+                starred = any(isinstance(a, ast.Assign) and any(isinstance(e, ast.Starred) and isinstance(e.value, ast.Name) and e.value.id == hit
+                                                               for t in a.targets if isinstance(t, (ast.Tuple, ast.List)) for e in t.elts)
+                              for a in walk_no_nested(fi.node))
+                if starred:
+                    continue
+                res.find(rule, "%s/%s/%s" % (rule, q, hit), fi.loc(b), q, src(b)[:80],
+                         "%s decides whether its optional argument '%s' was given by the argument's truth value (`%s`): a literal 0 is a parsed "
+                         "argument too, and is replaced by the default" % (q, hit, src(b)[:60]))
+    return n
+
+
+def generated_memoize_snaps(methods: Dict[str, ast.FunctionDef], res: Result, rule: str) -> None:
+    """SNAP: the generated model's memoize() puts every time that is a grid point up to rounding noise onto the grid
+    (starttime + round((t - starttime) / dt) * dt) before it looks the time up: chains t - dt - dt ... drift, `t <= self.starttime`
+    then fails one step late and the stock takes an extra Euler step.  The snapping runs for every float time of every run: it may be
+    skipped for non-floats, for dt == 0 and for times that are not near a grid point - not under a flag computed earlier from a dt
+    (the run specs of a scenario replace dt after construction) or for "exact" dts (the start time need not be exact)."""
+    from ..util import nesting_atoms
+    mm = methods.get("memoize")
+    if mm is None:
+        raise AnalysisError("memoize not found in the Jinja template")
+    ps = [a.arg for a in mm.args.args]
+    tp = ps[2] if len(ps) > 2 else "arg"
+    snaps = []
+    for n in ast.walk(mm):
+        if isinstance(n, ast.Assign) and len(n.targets) == 1 and isinstance(n.targets[0], ast.Name) and n.targets[0].id == tp:
+            snaps.append(n)
+    res.check(rule, "generated memoize() snaps the time onto the grid", bool(snaps), "%s (template)" % JINJA, "jinja:simulation_model.memoize",
+              src(snaps[0])[:80] if snaps else "", "the generated memoize() no longer replaces a time by its grid point", key="%s/jinja:memoize/missing" % rule)
+    for st in snaps:
+        extra = []
+        for a, t in nesting_atoms(mm, st):
+            txt = src(a)
+            if isinstance(a, ast.Call) and call_name(a) == "isinstance" and a.args and src(a.args[0]) == tp and t:
+                continue
+            if txt in ("self.dt",) and t:
+                continue
+            if isinstance(a, ast.Compare) and len(a.ops) == 1 and src(a.left) == "self.dt" and isinstance(a.comparators[0], ast.Constant) and a.comparators[0].value == 0:
+                continue
+            if isinstance(a, ast.Compare) and any(isinstance(c, ast.Call) and call_name(c) == "abs" for c in ast.walk(a)):
+                continue
+            extra.append("%s is %s" % (txt, t))
+        res.check(rule, "the snapping runs for every float time", not extra, "%s (template)" % JINJA, "jinja:simulation_model.memoize", "; ".join(extra)[:100] or src(st)[:80],
+                  "the generated memoize() snaps times onto the grid only when %s: whenever that does not hold for the dt and start time a run "
+                  "actually uses (run specs are replaced after construction; a start time need not be exactly representable) the drifting chain "
+                  "t - dt - dt ... misses `t <= starttime` and the stock takes an extra Euler step" % " and ".join(extra),
+                  key="%s/jinja:memoize/conditional" % rule)
+
+
 def _parse_expression(idx: Index) -> FuncInfo:
     """parseExpression with locals that merely name a read of its parameter (kind = type(expression), node_type = expression["type"])
     written out: the rules are phrased over the tests on the parameter."""
@@ -430,6 +513,7 @@ def check_c03(idx: Index, tier: str, res: Result) -> None:
                        "distributions of the stochastic built-ins", "array built-ins and array expansion",
                        "built-ins whose generator function the extractor does not understand (listed in the evidence)"]
     res.assumptions = ["CPython's parser", "XMILE 1.0 section 3.3.1 operator table (encoded in the checker)", "real arithmetic for + - * /"]
+    res.floor("generator functions scanned for defaults taken by truth value", falsy_default_rule(idx, res), 20)
     renderers, skipped = extract_py(idx, res)
     ops = {r.name: r for r in renderers if r.kind == "operator"}
     res.floor("operator templates", len(ops), 17)
@@ -1468,6 +1552,20 @@ def check_c04(idx: Index, tier: str, res: Result) -> None:
         ok = const_str(m_["type"]) == "call" and isinstance(m_["args"], ast.List) and src(m_["args"].elts[0]) == "0" and "equation_parsed" in src(m_["args"].elts[1])
     res.check("NONNEG", "non_negative => max(0, equation)", ok, px.loc(), px.qual, src(wraps[0])[:100] if wraps else "", "a non-negative flow is not wrapped in max(0, equation)",
               key="NONNEG/parse_xmile/wrap")
+    # the flag itself: an empty element <non_negative/> parses to None, so the flag is the *presence* of the key, not its value
+    from ..util import deref as _deref_nn
+    pe_nn = idx.func(XMILE, "parse_entity")
+    flagvals = [v for d in ast.walk(pe_nn.node) if isinstance(d, ast.Dict) for k, v in zip(d.keys, d.values) if const_str(k) == "non_negative"]
+    if not flagvals:
+        raise AnalysisError("parse_entity: the 'non_negative' field of the entity record not found")
+    for fv in flagvals:
+        val = _deref_nn(pe_nn.node, fv)
+        by_value = [x for x in ast.walk(val) if (isinstance(x, ast.Call) and call_name(x) == "get" and x.args and const_str(x.args[0]) == "non_negative")
+                    or (isinstance(x, ast.Subscript) and const_str(x.slice) == "non_negative")]
+        by_presence = [x for x in ast.walk(val) if isinstance(x, ast.Compare) and len(x.ops) == 1 and isinstance(x.ops[0], (ast.In, ast.NotIn)) and const_str(x.left) == "non_negative"]
+        res.check("NONNEG", "a flow is non-negative when the element is present", bool(by_presence) and not by_value, pe_nn.loc(fv), pe_nn.qual, src(val)[:80],
+                  "parse_entity derives the non-negative flag from %s: the empty element <non_negative/> is parsed to None, so the flag is never set and a "
+                  "uniflow is never wrapped in max(0, .)" % (src(by_value[0])[:50] if by_value else src(val)[:50]), key="NONNEG/parse_entity/flag-by-value")
     mx = one("max", lambda r: any("len(args) > 1" in c and v for c, v in r.conds))
     txt = render(mx.parts, "t", {role: "A" for role, _ in hole_keys(mx.parts)}, rep_n=2)
     ok = nf(parse_expr(txt)) == nf(parse_expr("max([A_0, A_1])"))
@@ -1533,6 +1631,7 @@ def check_c04(idx: Index, tier: str, res: Result) -> None:
         raise AnalysisError("LERP not found in the Jinja template")
     _lookup_shape(methods["LERP"], res, "SIBLING", "LERP", "%s (template)" % JINJA)
     _lookup_shape(idx.func(MODEL, "Model._lookup").node, res, "SIBLING", "Model._lookup", MODEL)
+    generated_memoize_snaps(methods, res, "SNAP")
     # ---- (5) time kind ---------------------------------------------------------------------------------------------------------------------
     generated_time_checks(idx, res, "TIME")
     # specs are taken from the IR (dt, start, stop each from its own field)
